@@ -1,4 +1,5 @@
 import LdkModel.Props.C05
+import LdkModel.Props.ChanProto
 #print axioms Ldk.C05.derivation_identity
 #print axioms Ldk.C05.slot_invariant_preserved
 #print axioms Ldk.C05.insertDesc_inv
@@ -10,3 +11,16 @@ import LdkModel.Props.C05
 #print axioms Ldk.C05.provide_refuses_inconsistent
 #print axioms Ldk.C05.provide_effect
 #print axioms Ldk.C05.store_reload_roundtrip
+#print axioms Ldk.ChanProto.counters_step_by_one
+#print axioms Ldk.ChanProto.counters
+#print axioms Ldk.ChanProto.at_most_one_outstanding
+#print axioms Ldk.ChanProto.raa_only_after_cs
+#print axioms Ldk.ChanProto.guarded_refines
+#print axioms Ldk.ChanProto.balance_conservation_partial
+#print axioms Ldk.ChanProto.balance_quiescent_partial
+#print axioms Ldk.ChanProto.agreement_partial
+#print axioms Ldk.ChanProto.joint_invariant_partial
+#print axioms Ldk.ChanProto.agreement_fails_raa_order
+#print axioms Ldk.ChanProto.agreement_fails_overdraw
+#print axioms Ldk.ChanProto.next_stats_sender_covers_peer_partial
+#print axioms Ldk.ChanProto.next_stats_holder_counts_signed
